@@ -11,7 +11,8 @@ returned OK, then `Spec.File.read file (strictTiling := true) oracle = ok table`
 is the table the history intends (rule of harness/ops_file.c `expected_chunk`: row groups are
 the maximal runs of batches between `rg` steps; a column's entries are the rows of its batches
 in order; OPTIONAL columns carry definition levels 0/1 and the values are dense; a NULL
-def_levels pointer means all present).  There is no model check here: this op ties nothing to
+def_levels pointer means all present; REPEATED columns carry definition levels 0 = empty list /
+1 = element and the repetition levels of the history, 0 throughout under a NULL rep_levels pointer).  There is no model check here: this op ties nothing to
 an Impl model, it evaluates the property on what the real code produced.
 
 The table compared with is `Impl.Writer.specTableOf cols ops` — the very function of the theorem
@@ -33,9 +34,13 @@ def leafOfCol (c : Col) : LeafInfo :=
 def entriesOfBatch (c : Col) (b : Batch) : List Entry :=
   if c.rep = .required then b.vals.map (fun v => ⟨0, 0, some v⟩)
   else
+    -- the repetition levels: those handed to write_batch for a REPEATED column (NULL pointer: every
+    -- entry starts a row), 0 otherwise
+    let rs := if c.rep = .repeated then (match b.reps with | some rs => rs | none => List.replicate b.nrows 0)
+              else List.replicate b.nrows 0
     match b.defs with
-    | none => b.vals.map (fun v => ⟨0, 1, some v⟩)
-    | some ds => assemble 1 (List.replicate ds.length 0) ds b.vals
+    | none => assemble 1 rs (List.replicate b.nrows 1) b.vals
+    | some ds => assemble 1 rs ds b.vals
 
 /-- split the history at `rg` steps; runs without any batch are no row group -/
 def runsOf : List Op → List Batch → List (List Batch)
